@@ -12,6 +12,8 @@ import (
 	"fmt"
 	"io"
 	"net"
+	"os"
+	"runtime"
 	"sort"
 	"strings"
 	"sync"
@@ -46,6 +48,9 @@ type splitCase struct {
 	// CloseLookedUp: a second handle for this registered name is obtained (other native setting) and closed
 	// before routing starts
 	CloseLookedUp string `json:"second_handle_closed_for,omitempty"`
+	// IdleSub: one more sub-listener ("idle-sub") is registered whose application is not accepting at the moment
+	// and for which no client asks; it only matters at the stop
+	IdleSub bool `json:"one_registered_sublistener_without_consumer,omitempty"`
 }
 
 func registered0(names []string, n string) bool {
@@ -269,6 +274,15 @@ func runSplitCase(c *engine.Ctx, s *world.Server, node *world.Node, sc splitCase
 				conn.Close()
 			}
 		}(name, ln)
+	}
+	if sc.IdleSub {
+		ln, err := sl.GetListener("idle-sub", nodeenrollment.WithNativeConns(sc.Native))
+		if err != nil {
+			r.Broken("GetListener (idle): " + err.Error())
+			return
+		}
+		subs["idle-sub"] = ln
+		r.Count("topologies_with_an_idle_sublistener", 1)
 	}
 	if sc.Order%2 == 1 {
 		// another component looks the registered names up again, without or with the opposite native-connection
@@ -548,6 +562,34 @@ waitStart:
 	case <-time.After(30 * time.Second):
 		r.Violation("sublistener-not-closed", "a sub-listener's Accept did not return after the base listener was closed and Start returned", sc)
 	}
+	// ---- after the stop: a connection the application still hands to a sub-listener (IngressConn is its
+	// public entry) is closed at once; no consumer accepts any more, so a sender that gets parked now stays parked
+	for name, ln := range subs {
+		mx, ok := ln.(*nodenet.MultiplexingListener)
+		if !ok {
+			continue
+		}
+		a, b := net.Pipe()
+		ret := make(chan struct{})
+		go func() { mx.IngressConn(a, nil); close(ret) }()
+		select {
+		case <-ret:
+			_ = b.SetReadDeadline(time.Now().Add(20 * time.Second))
+			if _, err := b.Read(make([]byte, 1)); err == nil || errors.Is(err, os.ErrDeadlineExceeded) {
+				r.Violation("ingress-after-stop-not-closed", fmt.Sprintf("a connection handed to sub-listener %q after Start had returned (base listener closed with its own sentinel: %v) was taken and not closed, and no consumer is left to accept it", name, sc.OwnSentinel), sc)
+			} else {
+				r.Count("ingress_after_stop_closed", 1)
+			}
+		case <-time.After(20 * time.Second):
+			if strings.Contains(splitGoroutines(), "MultiplexingListener).IngressConn") {
+				r.Violation("ingress-after-stop-stranded", fmt.Sprintf("IngressConn on sub-listener %q, called after Start had returned (base listener closed with its own sentinel: %v), is parked on the sub-listener's channel: the sub-listener was never closed, nobody accepts from it any more, and the connection is neither returned nor closed", name, sc.OwnSentinel), sc)
+			} else {
+				r.Inconclusive("IngressConn after the stop did not return within 20 s and is not parked in the library")
+			}
+			_ = a.Close()
+		}
+		_ = b.Close()
+	}
 	if _, err := sl.GetListener("late"); err == nil {
 		// documented as "don't"; not part of the statement, only counted
 		r.Count("getlistener_after_close_succeeded", 1)
@@ -615,6 +657,11 @@ func runSplit(c *engine.Ctx) engine.Result {
 			splitCase{Topology: []string{nodenet.AuthenticatedNonSpecificNextProto}, LateConsumerMs: 3000, OwnSentinel: true})
 	}
 	cases = append(cases, late...)
+	// a registered sub-listener nobody is accepting from when the base listener goes away (both ways of going away)
+	for i, topo := range [][]string{{"A", nodenet.AuthenticatedNonSpecificNextProto}, {nodenet.UnauthenticatedNextProto}, {"A", "B", nodenet.AuthenticatedNonSpecificNextProto, nodenet.UnauthenticatedNextProto}} {
+		cases = append(cases, splitCase{Topology: topo, Native: i%2 == 0, Order: 50 + i, OwnSentinel: true, IdleSub: true},
+			splitCase{Topology: topo, Native: i%2 == 1, Order: 60 + i, IdleSub: true})
+	}
 	// sub-listeners registered while Start is already running
 	for i, topo := range [][]string{
 		{"A", nodenet.AuthenticatedNonSpecificNextProto, nodenet.UnauthenticatedNextProto},
@@ -648,4 +695,9 @@ func runSplit(c *engine.Ctx) engine.Result {
 	r.Require("topologies_with_extra_protocols_in_listener_options", 10)
 	r.Require("topologies_with_a_closed_second_handle", 6)
 	return res
+}
+
+func splitGoroutines() string {
+	buf := make([]byte, 8<<20)
+	return string(buf[:runtime.Stack(buf, true)])
 }
